@@ -20,7 +20,50 @@ _ABM_ASSUME = [
     'Python ints are mathematical integers (true); dict iteration = insertion order; single-threaded execution; log() dropped',
 ]
 
+K1_C17 = ['InstanceManager.is_valid_instance', 'InstanceManager._timeout_instances', 'InstanceManager._update_instance_timestamp',
+          'InstanceManager.keep_instance_alive', 'InstanceManager.get_instance', 'InstanceManager._make_bptk',
+          'InstanceManager.create_instance', 'InstanceManager._delete_instance']
+K1_C18 = ['bptk.lock', 'bptk.unlock', 'bptk.is_locked', 'BptkServer._run_steps_resource', 'BptkServer._run_step_resource',
+          'BptkServer._stream_steps_resource.streamer']
+K1_C15 = ['BptkServer.token_required.decorated']
+
+_SRV_ASSUME = [
+    'Flask: request / make_response / Response behave as declared in the assumed contracts (make_response returns a fresh object with the given status and touches nothing else); dispatch calls exactly the registered view function; uncaught exceptions become 500',
+    'Python semantics of the encoded subset (DESIGN 2.2.7); single-threaded execution; log() dropped',
+]
+
 PROPS = {
+    'C15': dict(
+        mods=['contracts.c15_c18_server'], k1=K1_C15, level='proof', engines=['contracts.c15_routes'],
+        harness='verif/native/c15_harness.py', harness_budget=(60, 120),
+        explanation='contract on the real decorator token_required.decorated (closure variable f = the wrapped view, entering it sets a ghost flag): '
+                    'with a token configured, the view is entered only if the Authorization header is present and its second space-separated '
+                    'word equals the token; otherwise the result is a fresh 401 response (or an exception propagates), and the instance '
+                    'table and every session state are unchanged. Plus the route-table obligation generated from the AST of __init__: '
+                    'every non-public rule is bound to a method whose outermost decorator is token_required',
+        assumptions=_SRV_ASSUME + ['str.split is a pure function of its arguments'],
+        not_decided=['not decided deductively: Flask-generated responses (automatic OPTIONS, /static) never enter a view function; observed only by the native harness',
+                     'observation, not a violation of the statement: the scheme word is not checked (Basic <token> is accepted); a header without a second word gives 500']),
+    'C17': dict(
+        mods=['contracts.c17_timeouts'], k1=K1_C17, level='proof',
+        harness='verif/native/c17_harness.py', harness_budget=(20, 90),
+        explanation='ghost monotone clock ($now, advanced by every datetime.now()); representation invariant of the instance table; '
+                    'sweep contract: entries alive at the latest clock reading survive unchanged, entries expired at the earliest reading are '
+                    'removed and their bptk object destroyed exactly once; create_instance stores each of the seven timeout units (keyword or 0) '
+                    'and sweeps first; get_instance / keep_instance_alive stamp the addressed entry with a fresh reading and then sweep',
+        assumptions=_SRV_ASSUME + ['monotone clock; timedelta(**kw) = sum of unit*factor (7 units); reals for seconds', 'uuid1().hex is not already a key of the table', 'the bptk factory returns a fresh object'],
+        not_decided=['not decided deductively: which handlers reach get_instance (the access obligation per handler) and the restore-from-external-state path -- covered by the native harness only',
+                     'not decided: real-time behaviour (the clock is a ghost)']),
+    'C18': dict(
+        mods=['contracts.c15_c18_server'], k1=K1_C18, level='proof',
+        harness='verif/native/c18_harness.py', harness_budget=(20, 90),
+        explanation='all-exit-paths lock contracts (normal return, every exception edge, generator closed at each yield) on _run_steps_resource, '
+                    '_run_step_resource and the streamer generator, plus functional contracts on bptk.lock/unlock/is_locked: the lock of the addressed '
+                    'instance is the same at exit as at entry; a request that finds it locked answers 500 and runs no step; the generator leaves the '
+                    'instance unlocked however it ends',
+        assumptions=_SRV_ASSUME + ['bptk.run_step never touches the lock flag and does not install/remove the session object (assumed contract; its functional part is C09)'],
+        not_decided=['NOT DECIDED: the first sentence of the property for CONCURRENT requests (the window between is_locked() and lock(), and between reading and writing the session clock) -- a sequential verifier has no thread interleavings',
+                     'not decided: that the lock is released if the external state adapter raises after the steps']),
     'C11': dict(
         mods=['contracts.c11_c12_sched'], k1=K1_C11, level='proof', engines=['contracts.c11_lemmas'],
         harness='verif/native/c11_harness.py', harness_budget=(15, 90),
